@@ -211,10 +211,11 @@ func init() {
 			l = append(l, fw.Case{Idx: len(l), Kind: "crafted"})
 			l = append(l, fw.Case{Idx: len(l), Kind: "squares"})
 			l = mkCases(l, "moves", 32, seed, pick(tier, 40, 600))
+			l = mkCases(l, "ucitext", 8, seed, pick(tier, 6, 200))
 			return l
 		},
 		Floors: func(string) map[string]int64 {
-			return map[string]int64{"fen_inputs": 50000, "fen_accepted": 2000, "fen_rejected": 10000, "square_inputs": 1000, "move_inputs": 50000, "move_accepted": 5000, "move_rejected": 20000, "move_rejected_pseudolegal": 100}
+			return map[string]int64{"fen_inputs": 50000, "fen_accepted": 2000, "fen_rejected": 10000, "square_inputs": 1000, "move_inputs": 50000, "move_accepted": 5000, "move_rejected": 20000, "move_rejected_pseudolegal": 100, "uci_text_lines": 100}
 		},
 		Run: runC19,
 	})
@@ -318,7 +319,7 @@ func mutate(r *rand.Rand, s string) string {
 		case 7: // replace a field by a number-ish thing
 			f := strings.Split(string(rs), " ")
 			if len(f) > 0 {
-				f[r.Intn(len(f))] = []string{"-1", "99999999999999999999", "0x10", "+5", "1e3", "", "-", "--", "kqKQ", "KK", "e9", "i3", "e3e3", "٣", "-0", "007"}[r.Intn(16)]
+				f[r.Intn(len(f))] = []string{"-1", "99999999999999999999", "0x10", "+5", "1e3", "", "-", "--", "kqKQ", "KK", "e9", "i3", "e3e3", "٣", "-0", "007", "9223372036854775808", "18446744073709551615", "9223372036854775807", "4294967296"}[r.Intn(20)]
 				rs = []rune(strings.Join(f, " "))
 			}
 		case 8: // case flip
@@ -363,6 +364,11 @@ func craftedFENs() []string {
 		strings.Repeat("1", 64) + tail, strings.Repeat("1", 65) + tail, strings.Repeat("0", 70000) + tail,
 		strings.Repeat("p", 65536) + tail,
 		"8/8/8/8/8/8/8/7" + strings.Repeat("0", 100) + "1" + tail,
+	}
+	// counters at the edges of the integer types
+	for _, n := range []string{"2147483647", "2147483648", "4294967295", "4294967296", "9223372036854775807", "9223372036854775808", "9223372036854775809",
+		"18446744073709551615", "18446744073709551616", "12345678901234567890", "-9223372036854775808", "-9223372036854775809", "00000000000000000000001", "1_000", "1e3", "0x7fffffffffffffff"} {
+		l = append(l, "rnbqkbnr/pppppppp/8/8/8/8/PPPPPPPP/RNBQKBNR w KQkq - "+n+" 1", "rnbqkbnr/pppppppp/8/8/8/8/PPPPPPPP/RNBQKBNR w KQkq - 0 "+n)
 	}
 	// sums congruent to 64 modulo 256
 	l = append(l, strings.Repeat("8", 40)+tail, strings.Repeat("8", 8+32)+tail)
@@ -423,6 +429,47 @@ func runC19(c *fw.Ctx, cs fw.Case) {
 		}
 		for _, s := range []string{"", "e2e4", "E2E4", "e7e8q", "e7e8Q", "e7e8k", "e7e8p", "e7e8 ", "e2e4\x00", "\xc3\xa92e4", "é2e4", "e2é4", "e2e4é", "ééééé", "\xff\xff\xff\xff", "\xc3\xc3\xc3\xc3\xc3"} {
 			tryMoveParse(c, s)
+		}
+	case "ucitext":
+		// text reaching the game through the UCI driver: near-identical position lines (case of piece letters,
+		// digits appended to a clock) must still set up exactly the game they spell
+		for i := 0; i < cs.N; i++ {
+			s := newUCISession(&recipes[0], engine.Options{Depth: 1, Hash: 0}, 0, false, 1, false)
+			base := randomHist(r, 40).Final()
+			base.Half, base.Full = r.Intn(9), 1+r.Intn(9)
+			lines := []ref.Pos{base}
+			if flipped, ok := flipSomeColours(r, base); ok {
+				lines = append(lines, flipped)
+			}
+			ext := base
+			ext.Full = base.Full*10 + r.Intn(10)
+			lines = append(lines, ext, base)
+			for li, p := range lines {
+				s.send(positionCmd(p, nil, false))
+				if _, ok := s.sync(); !ok {
+					c.Violate("text:uci-no-readyok", "isready unanswered after a position line: %s", s.transcript(10))
+					break
+				}
+				c.Eval(1)
+				c.Count("uci_text_lines", 1)
+				if got := s.e.Position(); got != p.FEN() {
+					c.Violate("text:uci-position", "after %q the game is %q: %s", positionCmd(p, nil, false), got, s.transcript(10))
+					break
+				}
+				// a legal move of this position must be accepted as an extension, and be the move it spells
+				if ms := p.LegalMoves(); len(ms) > 0 && (li == len(lines)-1 || r.Intn(4) == 0) {
+					m := ms[r.Intn(len(ms))]
+					s.send(positionCmd(p, []ref.Move{m}, false))
+					s.sync()
+					np := p.Apply(m)
+					if got := s.e.Position(); got != np.FEN() {
+						c.Violate("text:uci-position", "after %q the game is %q, expected %q: %s", positionCmd(p, []ref.Move{m}, false), got, np.FEN(), s.transcript(10))
+						break
+					}
+				}
+			}
+			s.shutdown(true)
+			c.Distinct(base.FEN())
 		}
 	case "moves":
 		for i := 0; i < cs.N; i++ {
